@@ -370,3 +370,37 @@ func TestC04Conn(t *testing.T) {
 		fmt.Fprintf(w, "conn %s %d %d %s %d %d %d result=%s\n", c.transport, c.szxA, c.szxB, c.method, c.qlen, c.rlen, c.drop, res)
 	}
 }
+
+// TestC04Long: transfers whose block numbers cross 4095 -> 4096 (the Block option value then needs three bytes on the
+// wire) between two real connections, i.e. through the real codecs: 4100 blocks of 16 bytes up, down and both ways, over
+// the in-memory UDP and TCP transports, without faults.  Same judge as TestC04Conn.  Output lines `long <transport> …`.
+func TestC04Long(t *testing.T) {
+	outp := os.Getenv("VERIF_OUT")
+	if outp == "" {
+		t.Skip("VERIF_OUT not set")
+	}
+	seed, _ := strconv.Atoi(os.Getenv("VERIF_SEED"))
+	f, err := os.Create(outp)
+	if err != nil {
+		t.Fatal(err)
+	}
+	defer f.Close()
+	w := bufio.NewWriter(f)
+	defer w.Flush()
+	only := os.Getenv("VERIF_SCENARIO")
+	const n = 4100*16 + 5
+	cases := []connCase{
+		{transport: "udp", method: "post", qlen: n, rlen: 3},
+		{transport: "udp", method: "get", qlen: 0, rlen: n},
+		{transport: "tcp", maxA: 1152, maxB: 1152, method: "post", qlen: n, rlen: n - 16},
+		{transport: "tcp", maxA: 1152, maxB: 1152, method: "get", qlen: 0, rlen: n},
+	}
+	for i, c := range cases {
+		name := fmt.Sprintf("%s %s %d %d", c.transport, c.method, c.qlen, c.rlen)
+		if only != "" && name != only {
+			continue
+		}
+		res := runConnCase(t, c, seed*10+i)
+		fmt.Fprintf(w, "long %s result=%s\n", name, res)
+	}
+}
